@@ -161,18 +161,31 @@ theorem psDraw_inv (L : Lawful N) (d : Draw ν) (w : SW ν) :
           (d.dashes' N d.join.pdfOk) (SAct.seq [ssay [.path (.orig d.pid)]] w).1 [.orig d.pid] hx hj
         rw [e, hsg w, hsg]
         exact SSim.append h1 h2
-    · by_cases hfl : d.hasFill = true
-      · have e : psDraw N d = SAct.seq [ssay [.path (.orig d.pid)], setPaint d.fill,
-            ssay [if d.evenOdd then SOp.eofill else SOp.fill], ssay [.path (.outline d.pid)], setPaint d.stroke, ssay [SOp.fill]] := by
-          funext w; simp [psDraw, hst, hn, hfl]
-        rw [e, hsg w, hsg]
-        exact SSim.cons (path_sim _ w []) (SSim.cons (setPaint_sim d.fill _ _)
-          (SSim.cons (fill_sim d.evenOdd _ _) (SSim.cons (path_sim _ _ [])
-            (SSim.cons (setPaint_sim d.stroke _ _) (SSim.cons (fill_sim false _ _) (SSim.nil _ _))))))
-      · have e : psDraw N d = SAct.seq [ssay [.path (.outline d.pid)], setPaint d.stroke, ssay [SOp.fill]] := by
-          funext w; simp [psDraw, hst, hn, hfl]
-        rw [e, hsg w, hsg]
-        exact SSim.cons (path_sim _ w []) (SSim.cons (setPaint_sim d.stroke _ _) (SSim.cons (fill_sim false _ _) (SSim.nil _ _)))
+    · by_cases hoe : d.outlineEmpty = true
+      · by_cases hfl : d.hasFill = true
+        · have e : psDraw N d = SAct.seq [ssay [.path (.orig d.pid)], setPaint d.fill,
+              ssay [if d.evenOdd then SOp.eofill else SOp.fill], setPaint d.stroke, ssay [SOp.fill]] := by
+            funext w; simp [psDraw, hst, hn, hfl, hoe]
+          rw [e, hsg w, hsg]
+          exact SSim.cons (path_sim _ w []) (SSim.cons (setPaint_sim d.fill _ _)
+            (SSim.cons (fill_sim d.evenOdd _ _)
+              (SSim.cons (setPaint_sim d.stroke _ _) (SSim.cons (fill_sim false _ _) (SSim.nil _ _)))))
+        · have e : psDraw N d = SAct.seq [setPaint d.stroke, ssay [SOp.fill]] := by
+            funext w; simp [psDraw, hst, hn, hfl, hoe]
+          rw [e, hsg w, hsg]
+          exact SSim.cons (setPaint_sim d.stroke w []) (SSim.cons (fill_sim false _ _) (SSim.nil _ _))
+      · by_cases hfl : d.hasFill = true
+        · have e : psDraw N d = SAct.seq [ssay [.path (.orig d.pid)], setPaint d.fill,
+              ssay [if d.evenOdd then SOp.eofill else SOp.fill], ssay [.path (.outline d.pid)], setPaint d.stroke, ssay [SOp.fill]] := by
+            funext w; simp [psDraw, hst, hn, hfl, hoe]
+          rw [e, hsg w, hsg]
+          exact SSim.cons (path_sim _ w []) (SSim.cons (setPaint_sim d.fill _ _)
+            (SSim.cons (fill_sim d.evenOdd _ _) (SSim.cons (path_sim _ _ [])
+              (SSim.cons (setPaint_sim d.stroke _ _) (SSim.cons (fill_sim false _ _) (SSim.nil _ _))))))
+        · have e : psDraw N d = SAct.seq [ssay [.path (.outline d.pid)], setPaint d.stroke, ssay [SOp.fill]] := by
+            funext w; simp [psDraw, hst, hn, hfl, hoe]
+          rw [e, hsg w, hsg]
+          exact SSim.cons (path_sim _ w []) (SSim.cons (setPaint_sim d.stroke _ _) (SSim.cons (fill_sim false _ _) (SSim.nil _ _)))
   · by_cases hfl : d.hasFill = true
     · have e : psDraw N d = SAct.seq [ssay [.path (.orig d.pid)], setPaint d.fill,
           ssay [if d.evenOdd then SOp.eofill else SOp.fill]] := by
